@@ -215,9 +215,29 @@ SUBPATS_OPT = ["None", "Some(1)", "Some(_)", "_", "Some(0) | None"]
 OPT_DOMAIN = [("None", "None"), ("Some(0u8)", "Some(0)"), ("Some(1u8)", "Some(1)")]
 
 
+# sub-patterns over &str, char and a type whose Debug rendering hides the field that == reads
+SUBPATS_STR = ['"a" | "b"', '"a"']
+SUBPATS_CHAR = ["'a'..='f'", "'x' | 'y'"]
+SUBPATS_HID = ["eq!(&Hid(1, 0))", "ne!(&Hid(1, 0))"]
+# type name -> (parameter type, [(argument literal, Debug rendering, value for `accepts`)])
+TYPED = {
+    "u8": ("u8", [(f"{v}u8", str(v), v) for v in range(3)]),
+    "opt": ("Option<u8>", [(lit, shown, shown) for lit, shown in OPT_DOMAIN]),
+    "str": ("&str", [('"a"', '"a"', "a"), ('"c"', '"c"', "c"), ('""', '""', "")]),
+    "char": ("char", [("'a'", "'a'", "a"), ("'g'", "'g'", "g"), ("'\\n'", "'\\n'", "\n")]),
+    "hid": ("Hid", [("Hid(1, 0)", "Hid(1)", (1, 0)), ("Hid(1, 1)", "Hid(1)", (1, 1)), ("Hid(2, 0)", "Hid(2)", (2, 0))]),
+}
+
+
 def accepts(sp, v):
     if sp == "_":
         return True
+    if sp in SUBPATS_STR:
+        return v in ("a", "b") if "|" in sp else v == "a"
+    if sp in SUBPATS_CHAR:
+        return ("a" <= v <= "f") if ".." in sp else v in ("x", "y")
+    if sp in SUBPATS_HID:
+        return (v == (1, 0)) == sp.startswith("eq!")
     if sp in SUBPATS_OPT:
         return {"None": v == "None", "Some(1)": v == "Some(1)", "Some(_)": v != "None", "Some(0) | None": v in ("Some(0)", "None")}[sp]
     if sp == "1":
@@ -336,22 +356,23 @@ def render_b_typed(idx, pats, mode):
     """Like render_b, with per-position parameter types (u8 or Option<u8>); `mode` = (mode, types)."""
     mode, types = mode
     n = len(pats)
-    params = ", ".join(f"a{p}: {'u8' if types[p] == 'u8' else 'Option<u8>'}" for p in range(n))
+    params = ", ".join(f"a{p}: {TYPED[types[p]][0]}" for p in range(n))
     pat_text = ", ".join(pats)
     text = pinned_text(pats)
-    doms = [[(f"{v}u8", str(v), v) for v in range(3)] if types[p] == "u8" else [(lit, shown, shown) for lit, shown in OPT_DOMAIN] for p in range(n)]
+    doms = [TYPED[types[p]][1] for p in range(n)]
     cases = []
     for combo in itertools.product(*doms):
         rej = [p for p in range(n) if not accepts(pats[p], combo[p][2])]
         if not rej:
             continue
-        exp = ", ".join(f'({p}, "{mismatch_kind(pats[p])}", "{combo[p][1]}")' for p in rej)
+        # (for the type with the reticent Debug the entry carries prose next to the value: `~` = contains)
+        exp = ", ".join(f'({p}, "{mismatch_kind(pats[p])}", r#"{"~" if types[p] == "hid" else ""}{combo[p][1]}"#)' for p in rej)
         shown = ", ".join(c[1] for c in combo)
         lits = ", ".join(c[0] for c in combo)
-        cases.append(f'("{shown}", Box::new(|u: &Unimock| u.f({lits})) as Box<dyn Fn(&Unimock) -> u32>, vec![{exp}])')
+        cases.append(f'(r#"{shown}"#, Box::new(|u: &Unimock| u.f({lits})) as Box<dyn Fn(&Unimock) -> u32>, vec![{exp}])')
     entry = "each_call" if mode == "unordered" else "next_call"
     head = "No matching call patterns." if mode == "unordered" else "but inputs didn't match"
-    named = (f'if !msg.contains(&format!("Tr::f{text} at {{}}:{{}}", file!(), line)) {{ return Err(format!("pattern not named by source text and location (line {{line}}): {{msg}}")); }}' if text else 'if !msg.contains(&format!(" at {}:{}", file!(), line)) { return Err(format!("pattern location missing (line {line}): {msg}")); }') if mode == "ordered" else "let _ = line;"
+    named = (f'if !msg.contains(&format!("Tr::f{{}} at {{}}:{{}}", r#"{text}"#, file!(), line)) {{ return Err(format!("pattern not named by source text and location (line {{line}}): {{msg}}")); }}' if text else 'if !msg.contains(&format!(" at {}:{}", file!(), line)) { return Err(format!("pattern location missing (line {line}): {msg}")); }') if mode == "ordered" else "let _ = line;"
     return f"""    #[unimock(api=Mk)]
     pub trait Tr {{
         fn f(&self, {params}) -> u32;
@@ -374,8 +395,8 @@ def render_b_typed(idx, pats, mode):
             {named}
             let entries = parse_mismatches(&msg);
             let want: Vec<(usize, String, String)> = expected.iter().map(|(p, k, a)| (*p, k.to_string(), a.to_string())).collect();
-            if entries != want {{
-                return Err(format!("arguments ({{shown}}) against ({pat_text}): the report must list exactly the rejected positions with their values {{want:?}}, it lists {{entries:?}}; message: {{msg}}"));
+            if !same_entries(&entries, &want) {{
+                return Err(format!("arguments ({{shown}}) against ({{}}): the report must list exactly the rejected positions with their values {{want:?}}, it lists {{entries:?}}; message: {{msg}}", r#"{pat_text}"#));
             }}
         }}
         Ok(())
@@ -384,6 +405,27 @@ def render_b_typed(idx, pats, mode):
 
 
 PRELUDE_B = PRELUDE + """
+/// A type whose Debug rendering hides the field that distinguishes unequal values.
+#[derive(Clone, PartialEq)]
+pub struct Hid(pub u8, pub u8);
+impl core::fmt::Debug for Hid {
+    fn fmt(&self, f: &mut core::fmt::Formatter<'_>) -> core::fmt::Result {
+        write!(f, "Hid({})", self.0)
+    }
+}
+
+/// Listed entries against expected ones; an expected value starting with `~` must be contained.
+pub fn same_entries(entries: &[(usize, String, String)], want: &[(usize, String, String)]) -> bool {
+    entries.len() == want.len()
+        && entries.iter().zip(want).all(|(e, w)| {
+            e.0 == w.0 && e.1 == w.1 && match w.2.strip_prefix('~') {
+                Some(part) => e.2.contains(part) && !e.2.contains("missing #[derive(Debug)]"),
+                None => e.2 == w.2,
+            }
+        })
+}
+"""
+PRELUDE_B += """
 /// (position, kind, actual value) of every mismatch entry of a message, in order of appearance.
 pub fn parse_mismatches(msg: &str) -> Vec<(usize, String, String)> {
     let mut out = vec![];
@@ -480,6 +522,17 @@ def instances(tier):
                     if quick and mode == "ordered" and types[0] == "opt":
                         continue
                     add(f"mismatch-mixed:({', '.join(pats)})/{mode}", render_b(len(insts), pats, (mode, types)), {"part": "B"})
+    # (B, typed) string, char and reticent-Debug positions: the listed value is its Debug rendering
+    for mode in ("unordered", "ordered"):
+        for sp in SUBPATS_STR:
+            add(f"mismatch-str:({sp})/{mode}", render_b(len(insts), [sp], (mode, ["str"])), {"part": "B"})
+            add(f"mismatch-str:(1, {sp})/{mode}", render_b(len(insts), ["1", sp], (mode, ["u8", "str"])), {"part": "B"})
+        for sp in SUBPATS_CHAR:
+            add(f"mismatch-char:({sp})/{mode}", render_b(len(insts), [sp], (mode, ["char"])), {"part": "B"})
+            add(f"mismatch-char:({sp}, 0 | 2)/{mode}", render_b(len(insts), [sp, "0 | 2"], (mode, ["char", "u8"])), {"part": "B"})
+        for sp in SUBPATS_HID:
+            add(f"mismatch-hid:({sp})/{mode}", render_b(len(insts), [sp], (mode, ["hid"])), {"part": "B"})
+            add(f"mismatch-hid:({sp}, 1)/{mode}", render_b(len(insts), [sp, "1"], (mode, ["hid", "u8"])), {"part": "B"})
     if not quick:
         for pats in itertools.product(SUBPATS_OPT, repeat=3):
             if pats.count("_") != 1:
@@ -517,7 +570,7 @@ def run(pid, tier, replay, start):
     cov = {
         "evaluations": len(kept),
         "distinct_nontrivial": len(set(i.key for i in kept)),
-        "rule": "(A) parameter lists of arity 1 (all 12 kinds), arity 2 (all ordered pairs; quick: a cycle of pairs), four lists of arity 3-4 x 9 mock-induced error kinds, exact message text predicted by the generator; (B) every tuple of 2-3 sub-patterns over {1, _, 0 | 2, eq!(&1), ne!(&1)} x every failing argument tuple of {0,1,2}^n, in unordered (one / two patterns) and ordered mode, mismatch entries parsed from the message; every instance is non-trivial (a message is produced and compared); distinct = distinct instance keys",
+        "rule": "(A) parameter lists of arity 1 (all 12 kinds), arity 2 (all ordered pairs; quick: a cycle of pairs), four lists of arity 3-4 x 9 mock-induced error kinds, exact message text predicted by the generator; (B) every tuple of 2-3 sub-patterns over {1, _, 0 | 2, eq!(&1), ne!(&1)} x every failing argument tuple of {0,1,2}^n, in unordered (one / two patterns) and ordered mode, typed positions (Option<u8>, &str with string-literal or-patterns, char with ranges, a type whose Debug rendering hides the field == reads, under eq!/ne!), mismatch entries parsed from the message; every instance is non-trivial (a message is produced and compared); distinct = distinct instance keys",
         "samples": [{"instance": a[len(a) // 2].key, "code": a[len(a) // 2].code[:900]}, {"instance": b[len(b) // 2].key}],
         "exhaustive": True,
         "rendering_instances": len(a),
